@@ -398,6 +398,22 @@ meta_stream = generic_stream(
     _meta_dist)
 
 
+def _algo_dist(dist, o, kv):
+    dist["ss_%s" % o.get("ss")] += 1
+    dist["ops_total"] += o.get("ops", 0)
+    dist["reevaluations_total"] += o.get("reevaluations", 0)
+    if o.get("max_population", 0) >= 100:
+        dist["population_reached_cap"] += 1
+
+
+algo_stream = generic_stream(
+    "ALGO", "algo", None,
+    lambda pid, acc: acc.startswith("rej"),
+    ("ss", "ops", "reevaluations", "max_population", "value_mode", "max_held", "profile"),
+    lambda o, kv: o.get("ops", 0) >= 20,
+    _algo_dist)
+
+
 def build_cambrian_binary(ctx):
     tgt = os.path.join(ROOT, "harness", "target", "repo")
     p = subprocess.run(["cargo", "build", "--offline", "--bin", "cambrian", "--manifest-path", "/repo/Cargo.toml", "--target-dir", tgt],
@@ -504,7 +520,7 @@ def glob_(d, pat):
     return glob.glob(os.path.join(d, pat))
 
 
-STREAMS = {"run": run_stream, "ops": ops_stream, "spec": spec_stream, "guess": guess_stream, "cli": cli_stream, "meta": meta_stream}
+STREAMS = {"run": run_stream, "ops": ops_stream, "spec": spec_stream, "guess": guess_stream, "cli": cli_stream, "meta": meta_stream, "algo": algo_stream}
 
 CTL_FILES = ["theories/Ctl.vo", "theories/CtlProofs.vo"]
 
@@ -539,8 +555,11 @@ def _ops_prop(propfile_id, streams, extra=None, tested=None):
 
 PROPS = {
     "C02": _run_prop("C02", [{"kind": "run", "name": "mixed", "profile": "mixed", "count": {"quick": 240, "thorough": 3000}, "salt": 2},
-                             {"kind": "run", "name": "evict", "profile": "evict", "count": {"quick": 48, "thorough": 600}, "salt": 22}],
-                     ["best_is_min_ss1 is stated for any total preorder on objective values with mean [x] ~ x; that FiniteF64::cmp and the f64 mean satisfy this is exercised by the acceptor (Flocq Bcompare / Bplus / Bdiv under vm_compute), not proved"]),
+                             {"kind": "run", "name": "evict", "profile": "evict", "count": {"quick": 48, "thorough": 600}, "salt": 22},
+                             {"kind": "algo", "name": "algo", "profile": "mixed", "count": {"quick": 96, "thorough": 1600}, "salt": 23},
+                             {"kind": "algo", "name": "algoevict", "profile": "evict", "count": {"quick": 16, "thorough": 160}, "salt": 24}],
+                     ["best_is_min_ss1 is stated for any total preorder on objective values with mean [x] ~ x and instantiated at finite binary64 values (best_is_min_ss1_f64: the order hypotheses are theorems of Base/FinOrder.v)"],
+                     ["algorithm core at operation granularity: sequences of next_individual / process_individual_eval on the real AlgoContext (cfg hook) with the whole population read back and compared with the model's (Check/AlgoCheck.v), incl. runs past the population cap"]),
     "C03": _run_prop("C03", [{"kind": "run", "name": "mixed", "profile": "mixed", "count": {"quick": 320, "thorough": 4000}, "salt": 3}]),
     "C04": _run_prop("C04", [{"kind": "run", "name": "stop", "profile": "stop", "count": {"quick": 320, "thorough": 4000}, "salt": 4}],
                      ["'delivered' = taken up by the controller's select loop (the abort turn); a request sent while completions are queued may be taken up after some of them (DESIGN 3, C04)"]),
@@ -550,7 +569,9 @@ PROPS = {
                             "child-process path: the cli stream of C07/C16 (pids of concurrently running children are not compared)"]),
     "C06": _run_prop("C06", [{"kind": "run", "name": "fail", "profile": "fail", "count": {"quick": 320, "thorough": 4000}, "salt": 6}]),
     "C08": _run_prop("C08", [{"kind": "run", "name": "reeval", "profile": "reeval", "count": {"quick": 160, "thorough": 2000}, "salt": 8},
-                             {"kind": "run", "name": "mixed", "profile": "short", "count": {"quick": 160, "thorough": 2000}, "salt": 88}]),
+                             {"kind": "run", "name": "mixed", "profile": "short", "count": {"quick": 160, "thorough": 2000}, "salt": 88},
+                             {"kind": "algo", "name": "algo", "profile": "mixed", "count": {"quick": 96, "thorough": 1600}, "salt": 89}],
+                     None, ["algorithm core at operation granularity (algo stream, see C02)"]),
     "C14": _run_prop("C14", [{"kind": "run", "name": "mixed", "profile": "mixed", "count": {"quick": 240, "thorough": 4000}, "salt": 14},
                              {"kind": "cli", "name": "files", "profile": "valid", "count": {"quick": 48, "thorough": 400}, "salt": 141},
                              {"kind": "meta", "name": "meta", "profile": "mixed", "count": {"quick": 160, "thorough": 4000}, "salt": 142}],
